@@ -70,6 +70,11 @@ theorem path_of_edge_reach {succ : α → List α} {a b c} (he : b ∈ succ a) (
   | refl => exact .single he
   | cons hr _ ih => exact .cons he (ih hr)
 
+theorem path_of_reach_edge {succ : α → List α} {a b c} (h : Reach succ a b) (he : c ∈ succ b) : Path succ a c := by
+  induction h with
+  | refl => exact .single he
+  | cons hr _ ih => exact .cons hr (ih he)
+
 theorem Path.toReach {succ : α → List α} {a b} (h : Path succ a b) : Reach succ a b := by
   induction h with
   | single hr => exact .cons hr .refl
